@@ -32,6 +32,13 @@ const (
 	staleByte  = 0xA5
 )
 
+// PoisonByte is written over the whole capacity of a buffer when it is freed; StaleByte pre-fills
+// a buffer handed out under the Stale policy. Exported for content oracles (see PoisonRead).
+const (
+	PoisonByte = poisonByte
+	StaleByte  = staleByte
+)
+
 // Violation is one detected ownership error.
 type Violation struct {
 	Kind string // double-free | append-after-free | realloc-after-free | read-after-free | write-after-free
@@ -51,6 +58,10 @@ type buf struct {
 	hasFree bool
 	id      int
 	size    int
+	// position of the allocation / the free in the allocator's event order (PoisonRead attributes
+	// copied-out poison to the buffer freed last before the holder was allocated)
+	allocSeq int
+	freeSeq  int
 }
 
 // T is the tracking allocator.
@@ -62,6 +73,7 @@ type T struct {
 	freed      []*buf
 	viol       []Violation
 	nextID     int
+	seq        int
 
 	Mallocs, Frees, Appends, Reallocs, ForeignFrees int
 	liveBytes, PeakLive, MaxRequest                 int
@@ -177,7 +189,8 @@ func (t *T) alloc(size int, where pcs) *[]byte {
 	arr = arr[:size]
 	h := &arr
 	t.nextID++
-	t.bufs[h] = &buf{h: h, allocPC: where, id: t.nextID, size: size}
+	t.seq++
+	t.bufs[h] = &buf{h: h, allocPC: where, id: t.nextID, size: size, allocSeq: t.seq}
 	t.liveBytes += size
 	if t.liveBytes > t.PeakLive {
 		t.PeakLive = t.liveBytes
@@ -208,6 +221,8 @@ func (t *T) free(b *buf, where pcs) {
 		full[i] = poisonByte
 	}
 	b.arr = full
+	t.seq++
+	b.freeSeq = t.seq
 	t.liveBytes -= len(*b.h)
 	t.freed = append(t.freed, b)
 }
@@ -354,6 +369,80 @@ func (t *T) Use(data []byte, where string) {
 			t.reportNamed("read-after-free", b, where)
 		}
 	}
+}
+
+// HasPoison reports the index of the first poison byte in data (-1: none).
+func HasPoison(data []byte) int {
+	for i, c := range data {
+		if c == poisonByte {
+			return i
+		}
+	}
+	return -1
+}
+
+// PoisonRead is a content observation point: data - something the code under test reported (a
+// callback argument, an error text) or retains (a carry-over buffer) - contains the poison
+// pattern although the input it was derived from does not, i.e. it was read out of a buffer after
+// that buffer went back to the pool, with no observation point between the Free and the read
+// (free, then copy the tail out of the freed buffer). The caller has established that the poison
+// cannot be legitimate (the poison byte does not occur in its input at that place). The
+// allocator never recycles memory and writes the pattern only in Free, so the source is a freed
+// buffer; it is attributed to the buffer freed last before the holder of data (the live tracked
+// buffer data lies in, if any) was allocated - before now when data lies in no tracked buffer.
+func (t *T) PoisonRead(data []byte, where, detail string) {
+	t.mu.Lock()
+	defer t.mu.Unlock()
+	var holder *buf
+	if len(data) > 0 {
+		for _, b := range t.bufs {
+			if !b.freed && overlaps(data, *b.h) {
+				if holder == nil || b.id < holder.id {
+					holder = b
+				}
+			}
+		}
+	}
+	before := t.seq + 1
+	if holder != nil {
+		before = holder.allocSeq
+	}
+	var src *buf
+	for i := len(t.freed) - 1; i >= 0; i-- {
+		if b := t.freed[i]; b.freeSeq < before && (src == nil || b.freeSeq > src.freeSeq) {
+			src = b
+		}
+	}
+	sig := "read-after-free alloc=? free=? use=" + where
+	desc := fmt.Sprintf("read-after-free: poison bytes (0x%02X, written over a buffer when it is freed) in %s%s, but no buffer had been freed before", poisonByte, where, detail)
+	if src != nil {
+		allocSite, freeSite := src.allocPC.String(), src.freePC.String()
+		sig = "read-after-free alloc=" + topSite(allocSite) + " free=" + topSite(freeSite) + " use=" + where
+		desc = fmt.Sprintf("read-after-free: poison bytes (0x%02X, written over a buffer when it is freed) in %s%s: the bytes were read out of a buffer after it went back to the pool; freed last before that: buffer #%d (size %d) allocated at [%s], freed at [%s]",
+			poisonByte, where, detail, src.id, src.size, allocSite, freeSite)
+	}
+	if holder != nil {
+		desc += fmt.Sprintf("; the poisoned bytes sit in live buffer #%d (size %d) allocated at [%s]", holder.id, holder.size, holder.allocPC.String())
+	}
+	for _, v := range t.viol {
+		if v.Sig == sig {
+			return
+		}
+	}
+	t.viol = append(t.viol, Violation{Kind: "read-after-free", Sig: sig, Desc: desc})
+}
+
+// Note records a violation found by a content oracle of the harness under the allocator's
+// bookkeeping (deduplicated by signature like the others).
+func (t *T) Note(kind, sig, desc string) {
+	t.mu.Lock()
+	defer t.mu.Unlock()
+	for _, v := range t.viol {
+		if v.Sig == sig {
+			return
+		}
+	}
+	t.viol = append(t.viol, Violation{Kind: kind, Sig: sig, Desc: desc})
 }
 
 // Sweep verifies that no freed buffer was written to after it was freed.
